@@ -353,6 +353,8 @@ def validate_traces(w, traces, timeout=3000, assets=("A", "B", "C")):
         fh.write('SPECIFICATION TraceSpec\nCONSTANTS\n  Assets = {%s}\nCHECK_DEADLOCK FALSE\n' % ", ".join('"%s"' % a for a in assets))
     r = tlc.run(w, "BrokerTrace", "BrokerTrace.cfg", workers=1, env={"QSV_TRACE": path}, timeout=timeout)
     os.remove(path)
+    if r.violated == "evaluation-error" and "Overflow when computing" in r.out:
+        raise tlc.Overflow()
     vals = tlaval.extract_tagged(r.out, "VERDICT")
     verdicts = {}
     for v in vals:
@@ -360,6 +362,25 @@ def validate_traces(w, traces, timeout=3000, assets=("A", "B", "C")):
     if len(verdicts) != len(traces):
         raise tlc.TLCError("trace validation produced %d verdicts for %d traces:\n%s" % (len(verdicts), len(traces), r.out[-2000:]))
     return verdicts, r
+
+
+def validate_robust(rep, w, traces, assets=("A", "B", "C")):
+    """validate_traces with isolation of traces whose arithmetic overflows TLC's integers: returns
+    ({trace id: verdict set} for the traces that could be validated, last TLC result)."""
+    last = {}
+
+    def run_fn(items):
+        verdicts, r = validate_traces(w, items, assets=assets)
+        last["r"] = r
+        rep.cov["states"] += r.distinct
+        rep.cov["transitions"] += r.generated
+        return [verdicts[tr["id"]] for tr in items]
+
+    def skip(_tr):
+        rep.cov["skipped_overflow"] = rep.cov.get("skipped_overflow", 0) + 1
+
+    res = tlc.eval_with_bisect(run_fn, traces, skip)
+    return dict((tr["id"], v) for tr, v in zip(traces, res) if v is not None), last.get("r")
 
 
 def validate_random_traces(rep, prop, w, n, sd):
@@ -376,13 +397,13 @@ def validate_random_traces(rep, prop, w, n, sd):
     for k in range(0, len(traces), 300):
         chunk = traces[k:k + 300]
         try:
-            verdicts, r = validate_traces(w, chunk)
+            verdicts, r = validate_robust(rep, w, chunk)
         except tlc.TLCError as e:
             rep.machinery.append("trace validation failed: %s" % str(e)[-1500:])
             continue
-        rep.cov["states"] += r.distinct
-        rep.cov["transitions"] += r.generated
         for tr in chunk:
+            if tr["id"] not in verdicts:
+                continue
             nvalid += 1
             nev += len(tr["ev"])
             feats["t%s" % tr["id"]] = behaviour_features(
@@ -424,12 +445,11 @@ def validate_session_traces(rep, prop, w, n, sd, feats_all):
     if not traces:
         return 0
     try:
-        verdicts, r = validate_traces(w, traces, assets=("EQ:A", "EQ:B", "EQ:C"))
+        verdicts, r = validate_robust(rep, w, traces, assets=("EQ:A", "EQ:B", "EQ:C"))
     except tlc.TLCError as e:
         rep.machinery.append("validation of session traces failed: %s" % str(e)[-1500:])
         return 0
-    rep.cov["states"] += r.distinct
-    rep.cov["transitions"] += r.generated
+    traces = [tr for tr in traces if tr["id"] in verdicts]
     for tr in traces:
         rep.cov["trace_events"] = rep.cov.get("trace_events", 0) + len(tr["ev"])
         feats_all["s%s" % tr["id"]] = behaviour_features(
